@@ -42,6 +42,11 @@ TREES_X = {
 CUSTOM_MAP = dict(jobId="jid", eventId="eid", timestamp="ts",
                   previousEventIds="prev", applicationName="an",
                   jobName="jn", eventType="et")
+# legal but awkward: targets that are the internal names of other fields
+SWAP_MAP = dict(jobId="jobId", eventId="timestamp", timestamp="eventId",
+                previousEventIds="previousEventIds",
+                applicationName="jobName", jobName="workflow",
+                eventType="applicationName")
 WF = ("wf one", "wf2")
 
 
@@ -119,6 +124,8 @@ def write_case(root, tset, async_flag, seqopts=False):
         yaml.safe_dump(cfg, f)
     with open(os.path.join(root, "map.yaml"), "w") as f:
         yaml.safe_dump(CUSTOM_MAP, f)
+    with open(os.path.join(root, "swap.yaml"), "w") as f:
+        yaml.safe_dump(SWAP_MAP, f)
     return cfg
 
 
@@ -152,7 +159,10 @@ def run_case(tset, custom, async_flag, ug=False, seqopts=False):
         cfg = write_case(root, tset, async_flag, seqopts)
         o1, o2, o3 = (os.path.join(root, d) for d in ("o1", "o2", "o3"))
         cfgp = os.path.join(root, "cfg.yaml")
-        mapp = os.path.join(root, "map.yaml") if custom else None
+        mapp = None
+        if custom:
+            mapp = os.path.join(root, "swap.yaml" if custom == "swap"
+                                else "map.yaml")
         rc1 = call(dict(command="otel2puml", output_file_directory=o1,
                         config_file=cfgp, ingest_data=True,
                         find_unique_graphs=ug, debug=False,
@@ -192,7 +202,8 @@ def run_case(tset, custom, async_flag, ug=False, seqopts=False):
             if prob:
                 problems.append(prob)
         saved = {}
-        inv = {v: k for k, v in CUSTOM_MAP.items()}
+        inv = {v: k for k, v in (SWAP_MAP if custom == "swap"
+                                 else CUSTOM_MAP).items()}
         for wf in wfs:
             jobs = []
             for fn in sorted(os.listdir(os.path.join(o2, wf))):
@@ -290,6 +301,14 @@ def handle(task):
                 for p in problems:
                     out.append({"tset": tset, "custom": custom, "async": af,
                                 "problem": p})
+        # a mapping whose target names overlap internal field names
+        n += 1
+        problems, info = run_case(tset, "swap", False)
+        for k in ("identical_text", "workflows"):
+            agg[k] += info[k]
+        for p in problems:
+            out.append({"tset": tset, "custom": "swap", "async": False,
+                        "problem": p})
         if len(tset) >= 2:
             # sequencer options configured for the first workflow only
             for af in (False, True):
